@@ -247,12 +247,20 @@ func (c *Corpus) addDecoded(data []byte, first gopacket.LayerType) int {
 	}
 	n := 0
 	base := addr(data)
+	var prevPayload []byte
 	for _, l := range p.Layers() {
 		t := l.LayerType()
 		if t == gopacket.LayerTypeDecodeFailure || t == gopacket.LayerTypePayload {
 			continue
 		}
 		cts := l.LayerContents()
+		if len(cts) == 0 {
+			// some decoders (OSPF, ...) do not fill in their contents: the layer was decoded from what the layer in front of
+			// it left as payload
+			cts = prevPayload
+			c.Stats["seeds_located_through_the_previous_payload"]++
+		}
+		prevPayload = l.LayerPayload()
 		if len(cts) == 0 {
 			continue
 		}
@@ -1313,6 +1321,25 @@ func (c *Corpus) TextVariants(seed []byte, maxOut int) (out [][]byte) {
 		if len(eol) == 2 {
 			if !add(join(i, body, []byte("\r"))) || !add(join(i, body, []byte("\n"))) {
 				return
+			}
+		}
+	}
+	return
+}
+
+// ByteSweepRel returns variants of seed in which one byte is a little smaller or larger than it was (by 1..8, 12, 16,
+// 20, 24): a length, count or offset that ends up just below the fixed size of what it describes, or just above what is
+// there - values an absolute sweep over a fixed set does not reach.
+func (c *Corpus) ByteSweepRel(seed []byte, maxPos int) (out [][]byte) {
+	for p := 0; p < len(seed) && p < maxPos; p++ {
+		for _, k := range []int{1, 2, 3, 4, 5, 6, 7, 8, 12, 16, 20, 24} {
+			for _, v := range []int{int(seed[p]) - k, int(seed[p]) + k} {
+				if v < 0 || v > 255 {
+					continue
+				}
+				b := append([]byte{}, seed...)
+				b[p] = byte(v)
+				out = append(out, b)
 			}
 		}
 	}
